@@ -529,7 +529,7 @@ func (eng *Engine) encodeFunction(lp *LoadedPkg, fn *ssa.Function, fc *FuncContr
 func (eng *Engine) newEnc(lp *LoadedPkg, fn *ssa.Function, fc *FuncContract, pass int, escaped map[*ssa.Alloc]string, universe map[string]bool, keySorts map[string]string, loopMods map[*ssa.BasicBlock]map[string]bool) *Enc {
 	e := &Enc{eng: eng, s: NewScript(), fn: fn, fc: fc, pkg: lp, pass: pass,
 		entry: newState(), universe: universe, keySorts: keySorts, rangeSeen: map[string]bool{}, cellStatic: map[string]Val{},
-		cells: map[*ssa.Alloc]int{}, escaped: escaped, loopMods: loopMods, oblNames: map[string]int{}, assumps: map[string]bool{},
+		cells: map[*ssa.Alloc]int{}, fldIDs: map[string]int{}, escaped: escaped, loopMods: loopMods, oblNames: map[string]int{}, assumps: map[string]bool{},
 		siteHits: map[*Site]int{}, siteSeen: map[*Site]int{}, quantFns: map[string]string{}, callResult: map[ssa.Instruction]TV{}, callResultPre: map[ssa.Instruction]TV{}, siteInstrs: map[*Site][]ssa.Instruction{}, compositeKeys: map[string][]compKey{}, arrViews: map[string]arrViewInfo{}, retVals: map[string][]TV{}, loopModsTmp: map[*ssa.BasicBlock]map[string]bool{},
 		floatConsts: map[string]float64{}, floatOpsUsed: map[string]bool{}, cellInst: map[*ssa.Alloc]int{},
 		assumpEffectFree: map[string]bool{}, closureSiteDone: map[*ssa.Function]bool{}, funcOperandDone: map[*ssa.Function]bool{}}
